@@ -715,8 +715,8 @@ impl PreferenceManager {
         // don't do an update if the value hasn't changed
         let mut is_user_pref = true;
         if let Some(pref_value) = self.api_prefs.prefs.get(key) {
+            is_user_pref = false;       // also when the value stays the same (it is not a user pref; the user prefs might not even be read yet)
             if pref_value.as_str().unwrap() != value {
-                is_user_pref = false;
                 self.reset_files_from_preference_change(key, value)?;
             }
         } else if let Some(pref_value) = self.user_prefs.prefs.get(key) {
